@@ -172,7 +172,7 @@ def float_facts_selftest(nsamp=4000, seed=12345):
         u = unit()
         chk("log_nonpos", z <= u and u <= one, clog(u) <= z, u)
         x = rng.choice([a, -abs(a), clog(u), -unit(), -0.0, -inf, -5e-324])
-        chk("exp_unit", x <= z, z <= cexp(x) and cexp(x) <= one, x)
+        chk("exp_le_one", x <= z, cexp(x) <= one, x)
         chk("exp_nonneg", cexp(a) <= c or cexp(a) <= cexp(a), z <= cexp(a), a)
         kk = pint(1)
         chk("mul_inv_nonpos", x <= z, (one / I(kk)) * x <= z, kk, x)
@@ -180,7 +180,7 @@ def float_facts_selftest(nsamp=4000, seed=12345):
         n = pint(1)
         chk("mul_int_unit", z <= u and u <= one, z <= I(n) * u and I(n) * u <= I(n), n, u)
         ub = ubelow()
-        chk("mul_int_lt", z <= ub and ub < one, z <= I(n) * ub and I(n) * ub < I(n), n, ub)
+        chk("mul_int_lt", z <= ub and ub < one, I(n) * ub < I(n), n, ub)
         t = pint(0)
         chk("mul_unit_int", z <= u and u <= one, z <= u * I(t) and u * I(t) <= I(t), u, t)
         p, q = rng.choice([abs(a), u, inf, 0.0, cexp(b)]), rng.choice([abs(b), u, inf, 0.0, -0.0])
@@ -196,7 +196,7 @@ def float_facts_selftest(nsamp=4000, seed=12345):
         chk("add_one_mono", a <= b, a + one <= b + one, a, b)
         xr = rng.choice([I(n) * u, I(n) * ub, I(n), 0.0, -0.0, I(n) * (1 - 2.0 ** -53), I(n) - 1 if n > 1 else 0.5, rng.random() * I(n)])
         if z <= xr and xr <= I(n): chk("floor_range", True, 0 <= fl(xr) <= n, xr, n)
-        if z <= xr and xr < I(n): chk("floor_lt", True, 0 <= fl(xr) < n, xr, n)
+        if z <= xr and xr < I(n): chk("floor_lt", True, fl(xr) < n, xr, n)
         # DealFact (Random/DealF.lean), B = 2^31: (double) a * esl_random() < (double) a
         a31 = rng.choice([1, 2, 3, 2 ** 31 - 1, 2 ** 31, 2 ** 30, 2 ** 21, 2 ** 21 + 1, rng.randrange(1, 2 ** 31 + 1), rng.randrange(1, 5000)])
         x32 = rng.choice([0, 1, 0xffffffff, 0xfffffffe, 0x80000000, 2147483649, rng.getrandbits(32)])
@@ -211,19 +211,20 @@ class C09(Prop):
     theorems = ["EaselModel.Props.C09." + t for t in (
         "mt19937_stream", "mt19937_64_stream", "fast_stream", "reinit_replays", "reinit_reports_seed",
         "seed0_nonzero32", "seed0_nonzero64", "nonzero_seed_kept", "roll_lt", "roll_unbiased32", "roll_unbiased64",
-        "random_unit", "rand64_double_ranges", "deal_spec", "deal_spec_abstract", "deal_spec_binary64", "dchoose_nonzero", "dchoose_never_fatal", "dchoosecdf_nonzero", "dchoosecdf_never_fatal",
+        "random_unit", "rand64_double_ranges", "rand64_int64_range", "deal_spec", "deal_spec_abstract", "deal_spec_binary64", "dchoose_nonzero", "dchoose_never_fatal", "dchoosecdf_nonzero", "dchoosecdf_never_fatal",
         "rand64_deal_spec", "rand64_deal_spec_real", "rand64_deal_vprime_one_clamped", "rand64_deal_first_accepted",
         "uniformPositive_pos", "uniform_positive_unit", "gaussian_in_bounds", "gauss_table_sizes", "gamma_positive_real_partial", "dirichlet_simplex_real_partial",
         "mem_bytes", "floatstring_fits", "samplers_replay", "mt_constants_published", "model_constants_regenerated", "temper_linear",
         "seed0_create_replays", "seed0_init_replays", "rand64_init_replays", "dump_in_bounds", "dump_in_bounds_reinit", "dump_prefix_out_of_bounds",
-        "rand64_deal_spec_abstract", "rand64_deal_spec_binary64", "vitter_a_terminates", "rand64_deal_prefix_out_of_range", "rand64_deal_prefix_defect_carrier")] + ["EaselModel.MTP.fill_correct", "EaselModel.MTP.stream_eq_spec"]
+        "rand64_deal_spec_abstract", "rand64_deal_spec_binary64", "vitter_a_terminates", "rand64_deal_prefix_out_of_range", "rand64_deal_prefix_defect_carrier",
+        "mt_top_bit_clear_within", "roll_accepts_top_clear", "roll_terminates_mt19937", "roll_terminates_on_stream", "roll_terminates_fast", "roll64_terminates", "uniformPositive_terminates")] + ["EaselModel.MTP.fill_correct", "EaselModel.MTP.stream_eq_spec"]
     claimed = True
     technique = "Lean 4 proof (generic in-place-refill = recurrence theorem, stream invariant by induction, roll/deal arithmetic) + exact differential correspondence of the executable model with the ASan/UBSan-built C generators"
     level_text = ("Theorems for all seeds and all stream positions: the model's MT19937 / MT19937-64 / LCG output equals the reference recurrence across any number of refills; "
                   "re-init replays; seed 0 gives a non-zero reported seed; Roll is the unbiased rejection map with equal-size preimages; doubles lie in their intervals; Deal gives m increasing in-range values. "
                   "The hand-written model is tied to the working tree by a bit-exact differential run over operation histories; any divergence is a concrete failing (seed, history).")
     level_note = ("Trusted: Lean kernel + propext/Classical.choice/Quot.sound; the hand model's fidelity is checked (not proved) by the differential run; clock/pid inputs of seed selection are explicit inputs "
-                  "(the harness owns time()/getpid()/clock(), so seed 0 is driven and predicted); rejection loops terminate with probability 1 (fuel in the model); float comparison in esl_rnd_Deal assumed equal to exact comparison (L0). "
+                  "(the harness owns time()/getpid()/clock(), so seed 0 is driven and predicted); the integer rejection loops (Roll, rand64_Roll, UniformPositive) are proved to terminate for every seed of the three generators (linear-recurrence argument over GF(2), no equidistribution), the floating-point ones (Gaussian, Gamma, method D) keep fuel; float comparison in esl_rnd_Deal assumed equal to exact comparison (L0). "
                   "esl_rand64_Deal (Vitter D + A) is modelled exactly (binary64 through the Float instance, sample and generator position predicted bit for bit); its structure theorem (m strictly increasing values in [0,n), every "
                   "generator state) is proved twice: over any ordered field with arbitrary exp/log oracles, and over an ABSTRACT float carrier with uninterpreted operations assuming only FloatFacts (sign/monotonicity of single rounded "
                   "operations, exact integers up to B=2^53, sign facts of exp/log, NaN propagation: every field sampled on binary64 at each run, 0 counterexamples) and n <= B; the pre-fix code (ba43348) is a proved counter-example on such a carrier. "
@@ -234,7 +235,7 @@ class C09(Prop):
     trusted_base = ["hand model of esl_random.c/esl_rand64.c tied by exact differential run (h_random.c, ASan+UBSan build of the working tree)",
                     "Lean compiler/runtime for the executable driver", "gcc; IEEE-754 division/multiplication by powers of two exact (L0)"]
     assumptions = ["choose_arbitrary_seed's time()/getpid()/clock() are explicit inputs of the model (harness interposes the three symbols under an `env` op)",
-                   "rejection loops (Roll, UniformPositive, Gaussian, Gamma, Deal64) modelled with fuel 10^6: terminate with probability 1, not for every stream",
+                   "rejection loops modelled with fuel 10^6. Roll / rand64_Roll / UniformPositive: PROVED to terminate for every seed on MT19937, MT19937-64 and the LCG (within 19999, 19999, 2^31+1 resp. 624/2 draws: roll_terminates_*, roll64_terminates, uniformPositive_terminates); Gaussian, Gamma, Deal64 method D: floating-point acceptance tests, probability-1 termination only (fuel)",
                    "esl_rnd_Deal's double comparison equals the exact rational comparison (n < 2^31; separation 2^20 ulp) - checked by the differential run only",
                    "esl_rand64_Deal: int64 skeleton modelled in Int (no overflow for 13*m < 2^63, n < 2^63); the abstract-carrier theorem assumes FloatFacts F B (Random/Deal64Abs.lean: 28 facts about single rounded operations, each sampled on binary64 every run) and n <= B = 2^53 (vitter_a's skip loop relies on the integer-valued double `top` reaching exactly 0)",
                    "esl_rand64_Deal cost: method D's slow path runs ~n/m iterations per rejected squeeze (observed: m=300, n=2^52 -> S=1.8e12); the generator keeps n/m <= 2e6 for m >= 2 (cost, not range: outside the property)",
@@ -346,6 +347,21 @@ class C09(Prop):
             {"name": "seeds-boundary", "ops": ["new32 seed=4294967295", "u32 k=625", "gauss mean=%s sd=%s" % (dbits(0.0), dbits(1.0)), "init seed=4294967295", "u32 k=1",
                      "new64 seed=4294967296", "u64 k=313", "new64 seed=4294967295", "u64 k=2", "new64 seed=18446744073709551615", "deal64 m=3 n=100", "pos64",
                      "init64 seed=4294967297", "dblopen", "int64"]},
+            # re-seeding exactly at, one before and one after the table boundary (mti = 623 / 624 / 625 -> 1 after a refill), same and other seed
+            {"name": "reseed-boundary32", "ops": ["new32 seed=1", "u32 k=623", "pos32", "init seed=1", "pos32", "w32 k=3", "u32 k=621", "pos32", "init seed=2", "w32 k=2",
+                     "u32 k=623", "pos32", "init seed=2", "w32 k=2", "u32 k=1246", "pos32", "init seed=4294967295", "w32 k=2", "u32 k=622", "w32 k=3", "dump32",
+                     "newfast seed=1", "u32 k=624", "init seed=1", "w32 k=2", "pos32"]},
+            {"name": "reseed-boundary64", "ops": ["new64 seed=1", "u64 k=311", "pos64", "init64 seed=1", "pos64", "w64 k=3", "u64 k=309", "pos64", "init64 seed=2", "w64 k=2",
+                     "u64 k=311", "pos64", "init64 seed=2", "w64 k=2", "u64 k=622", "pos64", "init64 seed=18446744073709551615", "w64 k=2", "u64 k=310", "w64 k=3", "dump64"]},
+            # Create / Destroy churn: every Create is a fresh stream whatever was created and destroyed before (the harness destroys the old object)
+            {"name": "create-destroy-churn", "ops": sum([["new32 seed=%d" % sd, "w32 k=2", "newfast seed=%d" % sd, "w32 k=1", "new64 seed=%d" % sd, "w64 k=1"]
+                                                         for sd in (1, 4294967295, 1, 2, 1, 42, 1, 4294967295)], []) + ["u32 k=625", "u64 k=313", "pos32", "pos64"]},
+            # a 64-bit seed passed to the 32-bit API is truncated to its low 32 bits (uint32_t parameter): 2^64-1 -> 2^32-1, 2^32+1 -> 1,
+            # 2^32 -> 0, i.e. "choose a seed" (under a controlled clock/pid); the 64-bit API keeps all 64 bits
+            {"name": "seed-truncation", "ops": ["env t=1790000000 p=4242 c=1234", "new32 seed=18446744073709551615", "w32 k=2", "new32 seed=4294967295", "w32 k=2",
+                     "new32 seed=4294967297", "w32 k=2", "new32 seed=1", "w32 k=2", "new32 seed=4294967296", "w32 k=2", "new32 seed=0", "w32 k=2",
+                     "init seed=18446744073709551615", "w32 k=1", "init seed=8589934592", "w32 k=1", "newfast seed=18446744073709551615", "w32 k=2", "newfast seed=4294967295", "w32 k=2",
+                     "new64 seed=18446744073709551615", "w64 k=2", "new64 seed=4294967295", "w64 k=2", "init64 seed=18446744073709551615", "w64 k=2", "new64 seed=1", "w64 k=1", "new32 seed=1", "w32 k=1"]},
             {"name": "mt64", "ops": ["new64 seed=42", "u64 k=1", "u64 k=311", "u64 k=1", "u64 k=1000", "roll64 n=18446744073709551615", "dbl64", "dblclosed", "dblopen"]},
         ]
 
@@ -368,6 +384,28 @@ class C09(Prop):
                 ops.append("env t=%d p=%d c=%d" % tuple(rng.choice([0, 1, 0xffffffff, rng.randrange(1 << 32), rng.randrange(1 << 32)]) for _ in range(3)))
                 if rng.random() < 0.6: seed = 0
             nst = len(ops) + 1
+            if which < 0.06 and seed != 0:
+                # re-seeding history: Init after exactly k draws with k on / next to a table boundary, then the replay is observed word by word
+                b64 = rng.random() < 0.4
+                N = 312 if b64 else 624
+                new, init, u, wd, pos = ("new64", "init64", "u64", "w64", "pos64") if b64 else (rng.choice(["new32", "new32", "newfast"]), "init", "u32", "w32", "pos32")
+                sd = seed if not b64 else rng.choice([seed, (seed << 32) | seed, 2**64 - 1, 1])
+                ops.append("%s seed=%d" % (new, sd))
+                for _ in range(rng.randrange(2, 6)):
+                    k = rng.choice([N - 1, N, N + 1, 2 * N - 1, 2 * N, 2 * N + 1, 1, rng.randrange(1, 3 * N)])
+                    ops += ["%s k=%d" % (u, k), pos]
+                    sd2 = rng.choice([sd, sd, 1, (2**64 - 1) if b64 else 0xffffffff, rng.randrange(1, 1 << (64 if b64 else 32))])
+                    ops += ["%s seed=%d" % (init, sd2), pos, "%s k=%d" % (wd, rng.choice([1, 2, 3]))]
+                    if rng.random() < 0.3: ops.append("dump64" if b64 else "dump32")
+                out.append({"name": "gen%d" % c, "ops": ops, "sticky": nst}); continue
+            if which < 0.09 and seed != 0:
+                # Create/Destroy churn, incl. a 64-bit seed truncated by the 32-bit API
+                for _ in range(rng.randrange(3, 12)):
+                    sd = rng.choice([seed, seed, 1, 0xffffffff, (rng.randrange(1, 1 << 32) << 32) | seed, 2**64 - 1])
+                    o = rng.choice(["new32", "new32", "newfast", "new64"])
+                    ops += ["%s seed=%d" % (o, sd), ("w64 k=%d" if o == "new64" else "w32 k=%d") % rng.choice([1, 2, 5])]
+                    if rng.random() < 0.3: ops.append(("u64 k=%d" if o == "new64" else "u32 k=%d") % rng.choice([311, 312, 313, 623, 624, 625]))
+                out.append({"name": "gen%d" % c, "ops": ops, "sticky": nst}); continue
             if which < 0.6:
                 first = "new32" if rng.random() < 0.8 else "newfast"
                 if env and rng.random() < 0.2: ops.append("newtime"); first = "new32"
@@ -619,6 +657,7 @@ class C09(Prop):
                 return Failure("monitor", "seed 0: %s" % l)
             elif w[0] in ("new32", "newfast", "new64", "init", "init64", "newtime"):
                 sd = kv.get("seed", "0")
+                if w[0] in ("new32", "newfast", "init"): sd = str(int(sd) & M32)      # uint32_t parameter: a wider seed is truncated
                 if sd != "0" and l != "ok seed=%s" % sd:
                     return Failure("monitor", "seed %s reported as %s" % (sd, l))
                 if sd == "0" and (not l.startswith("ok seed=") or int(l[8:]) == 0):
